@@ -733,6 +733,44 @@ theorem lmeTraj_affine_in_age (p : LmeParams) (b0 b1 : Rat) (ts : List Rat) (hst
     field_simp
     ring
 
+private theorem sumBy_perm (f : Rat × Rat → Rat) {l l' : List (Rat × Rat)} (h : Perm l l') :
+    sumBy f l = sumBy f l' := sum_perm (h.map f)
+
+/-- The LME personalisation does not depend on the order of the visits either (any history, tied ages
+    included: only sums over the observed visits enter). -/
+theorem lme_perm_invariant (p : LmeParams) (slope : Bool) (cinv : Mat2) (c c' : Col) (h : Perm c c') :
+    lmeRandomEffects p slope cinv c = lmeRandomEffects p slope cinv c' := by
+  have hr : Perm (removeNans c) (removeNans c') := h.filterMap _
+  have har : Perm (residuals p (removeNans c)) (residuals p (removeNans c')) := hr.map _
+  have he : (removeNans c).isEmpty = (removeNans c').isEmpty := by
+    have := hr.length_eq
+    cases h1 : removeNans c <;> cases h2 : removeNans c' <;> simp_all
+  unfold lmeRandomEffects lmeGeneric2 lmeNormalMatrix lmeIntercept
+  simp only [he, sumBy_perm _ har, har.length_eq]
+
+/-- `predict` returns exactly one value per feature. -/
+theorem predict_length (pt : PredType) (nf : Nat) (vs : Visits) (ip : List (Option Rat))
+    (h : predict pt nf vs = some ip) : ip.length = nf := by
+  unfold predict at h
+  have key : ∀ (l : List Nat) (f : Nat → Option (Option Rat)) (r : List (Option Rat)),
+      l.mapM f = some r → r.length = l.length := by
+    intro l f
+    induction l with
+    | nil => intro r hr; simp at hr; subst hr; rfl
+    | cons a l ih =>
+      intro r hr
+      rw [List.mapM_cons] at hr
+      cases hf : f a with
+      | none => simp [hf] at hr
+      | some b =>
+        cases hl : l.mapM f with
+        | none => simp [hf, hl] at hr
+        | some bs =>
+          simp [hf, hl] at hr
+          subst hr
+          simp [ih bs hl]
+  simpa using key _ _ _ h
+
 /-! ## non-vacuity: the hypotheses above are satisfiable and the functions return -/
 
 example : last [(3, some 1), (5, none), (4, some 2)] = some none := by decide +kernel
